@@ -11,19 +11,31 @@ paths = {os.path.basename(os.path.dirname(p)): p for p in glob.glob(f"{root}/see
 paths.update({os.path.basename(p)[:-5]: p for p in glob.glob(f"{root}/mutants/*.diff")})
 seeds = sorted(paths)
 if len(sys.argv) > 1: seeds = [s for s in seeds if s in sys.argv[1:]]
-def run(seed, prop):
-    ev = f"/tmp/km/{seed}/{prop}"
+def run(seed):
+    """one process per mutant: loads once, runs every check (mwcheck -p all)"""
+    ev = f"/tmp/km/{seed}"
     os.makedirs(ev, exist_ok=True)
-    p = subprocess.run([f"{root}/bin/mwcheck","-p",prop,"-patch",paths[seed],"-evidence-dir",ev],capture_output=True,text=True)
-    finds = [l.split(" pos=")[0].replace("finding: ","") for l in p.stdout.splitlines() if l.startswith("finding: ")]
-    finds = [f for f in finds]
-    return seed, prop, p.returncode, finds
+    p = subprocess.run([f"{root}/bin/mwcheck","-p","all","-patch",paths[seed],"-evidence-dir",ev],capture_output=True,text=True)
+    out = {}
+    cur = []
+    for l in p.stdout.splitlines():
+        if l.startswith("finding: "):
+            cur.append(l.split(" pos=")[0].replace("finding: ",""))
+        elif l.startswith("ALL "):
+            parts = l.split()
+            pid = parts[1]
+            rc = int(parts[2].split("=")[1]) if parts[2].startswith("rc=") else 2
+            out[pid] = {"rc": rc, "findings": cur}
+            cur = []
+    if not out:  # patch did not apply / tree did not load
+        out = {pid: {"rc": p.returncode, "findings": []} for pid in props}
+    return seed, out
 res = {}
-with cf.ThreadPoolExecutor(max_workers=12) as ex:
-    futs = [ex.submit(run, s, p) for s in seeds for p in props]
+with cf.ThreadPoolExecutor(max_workers=8) as ex:
+    futs = [ex.submit(run, s) for s in seeds]
     for f in cf.as_completed(futs):
-        s, p, rc, finds = f.result()
-        res.setdefault(s, {})[p] = {"rc": rc, "findings": finds}
+        s, out = f.result()
+        res[s] = {p: out[p] for p in out if p in props}
 old = {}
 path = f"{root}/mutants/KILLMATRIX.json"
 if os.path.exists(path): old = json.load(open(path))
